@@ -544,9 +544,10 @@ def real_effects(out):
     return e
 
 
-def sdiv(I, st, x, y):
-    """spec-side floor division that never constrains the path: q = floor(x/y) when y > 0, else 0."""
-    return I.gdiv(st, x, y)
+def sdiv(I, st, x, y, sem=False):
+    """spec-side floor division that never constrains the path: q = floor(x/y) when y > 0, else 0.
+    sem=True: reuse the quotient of a division the code made on this path when the operands are provably equal."""
+    return I.gdiv(st, x, y, semantic=sem)
 
 
 def spec_rate(I, st, B, claims):
